@@ -212,6 +212,7 @@ void cmb_wtdsummary_print(const struct cmb_wtdsummary *wsp,
     cmb_assert_release(wsp != NULL);
     cmb_assert_release(((struct cmb_datasummary *)wsp)->cookie == CMI_INITIALIZED);
 
-    cmb_datasummary_print((struct cmb_datasummary *)wsp, fp, lead_ins);
+    const struct cmb_datasummary ds = cmi_wtdsummary_normalized(wsp);
+    cmb_datasummary_print(&ds, fp, lead_ins);
 }
 
